@@ -183,6 +183,8 @@ def _cli_case(case, clidrv, pelgen):
     import tempfile
     out = []
     pels = [pelgen.encode_pel(pelgen.pel_from_spec(s)) for s in case['pels']]
+    if case.get('tail'):
+        pels[0] += bytes.fromhex(case['tail'])       # the file holds more bytes than the sections the Private Header counts
     with tempfile.TemporaryDirectory(prefix='c13_', dir=clidrv.scratch_root()) as d:
         names = []
         for i, b in enumerate(pels):
@@ -309,6 +311,14 @@ def run_chunk(chunk):
             small = {'eid': 0x50000800, 'plid': 0x50000800, 'obmc': 800, 'sections': [{'t': 'PS', 'ascii': '11009000'.ljust(32)}]}
             for mode in ('f', 'a', 'l', 'plid', 'src', 'bmc', 'id'):
                 do({'k': 'cli', 'mode': mode, 'pels': [big, small]}, True)
+        # files that hold more than the counted sections (padding, stray bytes, an uncounted section): --hex shows the file
+        extra = '5544001001000000abcd00000102030405060708'
+        for tail in ('ff' * 20, '00', '1f207e7f41', extra, '00' * 4096):
+            a = {'eid': 0x50000A01, 'plid': 0x50000A01, 'obmc': 701, 'sections': [{'t': 'PS', 'ascii': 'BD8D9000'.ljust(32)},
+                                                                                    {'t': 'UD', 'comp': 0xABCD, 'payload': '1f207e7f'}]}
+            b = {'eid': 0x50000A02, 'plid': 0x50000A02, 'obmc': 702, 'sections': [{'t': 'PS', 'ascii': '11009000'.ljust(32)}]}
+            for mode in ('f', 'a', 'l', 'plid', 'src', 'bmc', 'id'):
+                do({'k': 'cli', 'mode': mode, 'pels': [a, b], 'tail': tail}, True)
         for i in range(len(specs)):
             group = [specs[i], specs[(i + 1) % len(specs)], specs[(i + 5) % len(specs)]]
             for j, g in enumerate(group):
